@@ -19,7 +19,14 @@ def main():
     param.P['replaying'] = True
     try:
         mod = importlib.import_module('props.' + spec['id'].lower())
-        res = mod.replay(spec['cond'], spec['args'])
+        if spec['cond'].get('func') == '__lemma__' and hasattr(mod, 'lemmas') and not getattr(mod, 'REPLAYS_LEMMAS', False):
+            # a violation reported by a direct z3/witness lemma: re-run the lemmas and look the entry up by name
+            res = {'reproduced': False, 'note': 'lemma %s no longer reports a violation' % spec['cond'].get('name')}
+            for lr in mod.lemmas('quick'):
+                if lr.get('name') == spec['cond'].get('name') and lr.get('violation'):
+                    res = dict(lr['violation'], reproduced=True)
+        else:
+            res = mod.replay(spec['cond'], spec['args'])
     except BaseException as e:
         import traceback
         res = {'reproduced': False, 'error': 'replay crashed: %s: %s' % (type(e).__name__, e),
